@@ -43,7 +43,19 @@ type step struct {
 	Durable  []int   `json:"durable"`
 	Logical  []int   `json:"logical"`
 	Synced   int     `json:"syncedCells"`
+	// housekeep (one pass of walWriter.doHousekeeping)
+	Rotate     bool  `json:"rotate"`
+	HkSynced   bool  `json:"synced"`
+	Head       int   `json:"head"`
+	Tail       int   `json:"tail"`
+	Files      []int `json:"files"`
+	FileLimit  int   `json:"fileLimit"`
+	TotalLimit int   `json:"totalLimit"`
+	Eager      bool  `json:"eager"`
+	HkDurable  []int `json:"hkDurable"`
 }
+
+const cellBytes = 4 // housekeeping behaviours: one cell of the spec is exactly 4 bytes (HDR = 2 cells = the 8 header bytes)
 
 type variant struct {
 	crashIdx int // index of the crash op whose byte offset inside its class is forced (-1: seeded)
@@ -58,6 +70,8 @@ type runner struct {
 	payloads map[int][]byte
 	byData   map[string]int
 	hdrCells int
+	hk       bool // exact sizes: payload of p cells = 4*p bytes
+	cfg      consensus.WALConfig
 }
 
 var cfg = consensus.WALConfig{
@@ -67,6 +81,14 @@ var cfg = consensus.WALConfig{
 
 func (r *runner) payload(rid, p int) []byte {
 	var n int
+	if r.hk {
+		bs := make([]byte, cellBytes*p)
+		r.rnd.Read(bs)
+		if len(bs) >= 4 {
+			binary.BigEndian.PutUint32(bs[0:4], uint32(rid))
+		}
+		return bs
+	}
 	switch p {
 	case 0:
 		n = 0
@@ -103,7 +125,19 @@ type verdict struct {
 
 func (r *runner) run(steps []step, v variant) verdict {
 	var err error
-	r.w, err = consensus.OpenWALForWrite(r.id, &cfg)
+	r.cfg = cfg
+	for _, s := range steps {
+		if s.Op == "housekeep" {
+			// limits of the specification in bytes; the ticker never fires, every pass is scheduled by the behaviour
+			r.hk = true
+			r.cfg.FileLimit, r.cfg.TotalLimit = int64(cellBytes*s.FileLimit), int64(cellBytes*s.TotalLimit)
+			if s.Eager {
+				r.cfg.SyncInterval = time.Nanosecond
+			}
+			break
+		}
+	}
+	r.w, err = consensus.OpenWALForWrite(r.id, &r.cfg)
 	if err != nil {
 		return verdict{"divergence", "", "open: " + err.Error()}
 	}
@@ -133,6 +167,50 @@ func (r *runner) run(steps []step, v variant) verdict {
 			}
 			if err := sh.Shift(); err != nil {
 				return verdict{"divergence", "", fmt.Sprintf("step %d shift: %v", i, err)}
+			}
+		case "housekeep":
+			if !consensus.VerifWALHousekeep(r.w) {
+				return verdict{"divergence", "", "writer is not the file WAL writer"}
+			}
+			// the files the pass leaves behind: indices and sizes as predicted
+			ents, _ := os.ReadDir(r.dir)
+			have := map[int]int64{}
+			for _, e := range ents {
+				var idx int
+				if _, err := fmt.Sscanf(strings.TrimPrefix(e.Name(), "round_"), "%d", &idx); err == nil {
+					if fi, err := e.Info(); err == nil {
+						have[idx] = fi.Size()
+					}
+				}
+			}
+			want := map[int]int64{}
+			for k, c := range s.Files {
+				want[s.Head-1+k] = int64(cellBytes * c)
+			}
+			// every record the specification still counts as durable must be readable from the files
+			rd, err := consensus.OpenWALForRead(r.id)
+			if err != nil {
+				return verdict{"violation", "wal:housekeep:open-failed", fmt.Sprintf("step %d: OpenWALForRead after a housekeeping pass failed: %v", i, err)}
+			}
+			seen := map[int]bool{}
+			for {
+				bs, err := rd.ReadBytes()
+				if err != nil {
+					break
+				}
+				if rid, ok := r.byData[string(bs)]; ok {
+					seen[rid] = true
+				}
+			}
+			rd.Close()
+			for _, d := range s.HkDurable {
+				if !seen[d] {
+					return verdict{"violation", "wal:housekeep:synced-record-lost",
+						fmt.Sprintf("step %d: synced record %d cannot be read after the housekeeping pass (files on disk %v, the specification keeps %v)", i, d, have, want)}
+				}
+			}
+			if fmt.Sprint(have) != fmt.Sprint(want) {
+				return verdict{"divergence", "", fmt.Sprintf("step %d housekeep: files on disk %v, spec predicts %v (rotate=%v sync=%v)", i, have, want, s.Rotate, s.HkSynced)}
 			}
 		case "close":
 			if err := r.w.Close(); err != nil {
@@ -261,7 +339,7 @@ func (r *runner) recover() ([][]byte, verdict) {
 		got = append(got, bs)
 	}
 	rd.Close()
-	r.w, err = consensus.OpenWALForWrite(r.id, &cfg)
+	r.w, err = consensus.OpenWALForWrite(r.id, &r.cfg)
 	if err != nil {
 		return got, verdict{"violation", "wal:recover:reopen-failed", "OpenWALForWrite after recovery failed: " + err.Error()}
 	}
